@@ -33,7 +33,7 @@ theorem made_leader {T : Nat} {s s' : St} (hi : Inv T s) (hl : s.role = some tru
     (h : step (Cfg.real T) s .made = (s', none)) :
     s.mgr = .CONNECTING ∧ s.timer = none ∧ s.conn = none ∧
     s' = { s with mgr := .CONNECTED, traffic := some .connected, timer := some (s.now + T),
-                  conn := some s.nextConn, outConn := some s.nextConn, outPaused := false, nextConn := s.nextConn + 1,
+                  conn := some s.nextConn, outConn := some s.nextConn, outPaused := false, readPaused := !s.inPaused.isEmpty, nextConn := s.nextConn + 1,
                   pings := s.pings ++ [{ id := s.nextPing, sent := s.now, wire := none }],
                   nextPing := s.nextPing + 1, lastPing := s.now, madeAt := s.now, dropped := false } := by
   obtain ⟨h1, h2, h3, h4, h5, h6, h7, h8, h9, h10, h11, h12, h13⟩ := hi
